@@ -169,4 +169,27 @@ theorem corevm_startFlow_is_link (hν : Function.Injective ν) (f : FUid) (args 
           · simp only at hrun
             exact fin _ s w3 rfl l3 hrun
 
+
+/-- **creation followed by the link IS the operation `startChild` of the Lifetime machine** (when its guard holds) -/
+theorem link_create_eq_startChild (s : State) (c fid p k : Nat) (pf : Flow) (hc : s.flows c = none) (hp : s.flows p = some pf)
+    (hg : (unlisted s c && c != p && (pf.status.listening || (decide (k > 0) && pf.flowId == fid && decide (pf.activated > 0)))) = true) :
+    linkInst (createInst s c fid) c p k = applyOp s (.startChild c fid p k) := by
+  have hcp : c ≠ p := by
+    simp only [Bool.and_eq_true, bne_iff_ne, ne_eq] at hg
+    exact hg.1.2
+  have hpc : p ≠ c := fun e => hcp e.symm
+  have h1 : (createInst s c fid).flows c = some (freshFlow fid) := by rw [createInst_flows, if_pos rfl]
+  have h2 : (createInst s c fid).flows p = some pf := by rw [createInst_flows, if_neg hpc]; exact hp
+  simp only [linkInst, h1, h2, applyOp, hc, hp, hg, if_true]
+  apply state_ext
+  · funext v
+    simp only [setFlow_flows, createInst]
+    by_cases hv : v = p
+    · simp only [hv, if_true]
+    · simp only [hv, if_false]
+      by_cases hv2 : v = c
+      · simp only [hv2, if_true]
+      · simp only [hv2, if_false]
+  all_goals rfl
+
 end NemoVerif.Lifetime.Refine
